@@ -18,7 +18,8 @@ PROPERTY = 'C16'
 LEVEL = 'model_checking'
 FUNCTIONS = ['mofun.atoms.Atoms.load_cml', "mofun.atoms.Atoms.load (filetype 'cml')", 'mofun.atoms.Atoms.__init__ (elements branch)']
 BOUNDS = {'quick': '1-3 atoms, 0-2 bonds naming any atoms (symbolic), 7 id schemes (sequential, non-sequential, reversed, shuffled, arbitrary '
-                   'strings, ids that are prefixes of one another, numeric), coordinates any real in (-1e4, 1e4)',
+                   'strings, ids that are prefixes of one another, numeric), 4 document layouts (one molecule, two molecules in a <cml> wrapper, nested sub-molecule, split arrays), '
+                   'coordinates any real in (-1e4, 1e4), 4 number spellings on the witnesses',
           'thorough': 'up to 4 atoms and 3 bonds'}
 OUTSIDE = ['the decimal spelling of a number in symbolic mode (a placeholder token stands for any spelling float() accepts; four spellings are rendered on the concrete witnesses: repr, %.17E, explicit plus sign, %.17e)', 'XML namespaces (documents are rendered without xmlns, as the repository fixtures are)']
 ASSUMPTIONS = ['ElementTree data model: findall returns elements in document order with their attributes as strings', 'atom ids unique within a document']
